@@ -23,6 +23,8 @@ def load_dep_decls(prog):
         p = os.path.join(roots[0], f)
         if os.path.exists(p):
             prog.src.load_file(p, ['bitcoin'] + f[:-3].split('/'))
+    for p in glob.glob(os.path.expanduser('~/.cargo/registry/src/*/ic-stable-structures-*/src/storable.rs'))[:1]:
+        prog.src.load_file(p, ['ic_stable_structures', 'storable'])
 
 
 def bh(i):
